@@ -218,6 +218,9 @@ func osProp(k *verifkit.Kit) func(c osCase) error {
 
 func osGen(t *rapid.T) osCase {
 	c := osCase{Index: rapid.IntRange(1, 9).Draw(t, "index")}
+	if rapid.IntRange(0, 4).Draw(t, "bigindex") == 0 {
+		c.Index = rapid.SampledFrom([]int{255, 256, 65535, 65536, 70000, 1<<31 - 1}).Draw(t, "indexv") // (interface indices only grow on a long-lived host)
+	}
 	nets := []string{"2001:db8:1::", "2001:db8:2::", "fd00:1::", "fe80::"}
 	for i, n := 0, rapid.IntRange(0, 8).Draw(t, "naddrs"); i < n; i++ {
 		base := netip.MustParseAddr(rapid.SampledFrom(nets).Draw(t, "net")).As16()
@@ -228,7 +231,7 @@ func osGen(t *rapid.T) osCase {
 				fl |= bit
 			}
 		}
-		c.Addrs = append(c.Addrs, osAddr{Addr: netip.AddrFrom16(base).String(), Bits: uint8(rapid.SampledFrom([]int{64, 64, 128, 48, 56}).Draw(t, "bits")), Flags: fl,
+		c.Addrs = append(c.Addrs, osAddr{Addr: netip.AddrFrom16(base).String(), Bits: uint8(rapid.SampledFrom([]int{64, 64, 128, 48, 56, 0, 1, 63, 65, 127}).Draw(t, "bits")), Flags: fl,
 			Valid: rapid.SampledFrom([]uint32{math.MaxUint32, math.MaxUint32 - 1, 0, 86400}).Draw(t, "valid"), Pref: rapid.SampledFrom([]uint32{math.MaxUint32, 0, 14400}).Draw(t, "pref")})
 		if rapid.IntRange(0, 5).Draw(t, "ptp") == 0 {
 			peer := netip.MustParseAddr(rapid.SampledFrom(nets).Draw(t, "peernet")).As16()
